@@ -39,9 +39,9 @@ type c17Cfg struct {
 }
 
 type c17Case struct {
-	Cfg   c17Cfg        `json:"config"`
-	App   world.AppSpec `json:"application"`
-	Queues []string     `json:"existingQueues"`
+	Cfg    c17Cfg        `json:"config"`
+	App    world.AppSpec `json:"application"`
+	Queues []string      `json:"existingQueues"`
 }
 
 func (r c17Rule) yaml(ind string) string {
@@ -400,15 +400,15 @@ func c17Apps() []world.AppSpec {
 }
 
 type c17Run struct {
-	evals      int
-	nontrivial map[string]bool
-	outcomes   map[string]bool
-	found      []mc.Found
-	fpSeen     map[string]int
-	harness    []string
+	evals       int
+	nontrivial  map[string]bool
+	outcomes    map[string]bool
+	found       []mc.Found
+	fpSeen      map[string]int
+	harness     []string
 	rejectedCfg int
-	configs    int
-	samples    []interface{}
+	configs     int
+	samples     []interface{}
 }
 
 func (r *c17Run) fail(rule, fp string, c c17Case, format string, args ...interface{}) {
